@@ -2,49 +2,59 @@
 (***************************************************************************)
 (* The run-time of a generated scanner as the manual describes it: an      *)
 (* abstract machine over byte streams.  One action per linearization point *)
-(* of the skeleton (yylex's matching loop, YY_INPUT, the functions an      *)
-(* action may call).  Nothing here mentions tables, buffers' geometry,     *)
-(* API flavour or back end: those are representation, and the same         *)
-(* machine must explain every configuration (properties C02, C03).         *)
+(* of the skeleton (yylex's matching loop, YY_INPUT, yywrap, the functions *)
+(* an action or the caller may use).  Nothing here mentions tables, buffer *)
+(* geometry, API flavour or back end: those are representation, and the    *)
+(* same machine must explain every configuration (properties C02, C03).    *)
 (*                                                                         *)
 (* The actions take the observable values as parameters, so that           *)
 (*  - MC_Scanner explores them over small domains and checks the           *)
-(*    properties (stated separately in FlexScannerProps), and              *)
+(*    properties (FlexScannerProps), and                                   *)
 (*  - Trace_Scanner binds them to events recorded from a running scanner.  *)
 (***************************************************************************)
-EXTENDS FlexRules, SequencesExt
+EXTENDS FlexRules, SequencesExt, TLC
 
 CONSTANT RSets      \* sequence of compiled rule sets (FlexRules!Compile)
 
 VARIABLES
   rs,      \* index of the rule set this scanner was generated from
-  opt,     \* [interactive, array, lno, bolneeded, rejectmode, bufsize, strictread]
-  inp,     \* bytes of the input source not yet delivered by a read
-  buf,     \* bytes delivered but not yet consumed (after the current token)
-  eof,     \* the source has reported end of input
+  opt,     \* [interactive, array, lno, bolneeded, rejectmode, bufsize, strictread, reentrant, userwrap]
+  \* ---- input sources and buffers
+  files,   \* files[f]: bytes of input source f not yet delivered by a read
+  yyin,    \* the source `yyin` designates
+  cur,     \* id of the current buffer (0: none)
+  bstack,  \* the buffer stack (bottom first); its top is the current buffer
+  saved,   \* records of the existing non-current buffers (function id -> record)
+  fid,     \* source the current buffer reads (0: an in-memory buffer)
+  fresh,   \* the current buffer is "new": its next read goes to whatever yyin is then
+  buf,     \* bytes delivered to the current buffer but not yet consumed
+  eof,     \* the current buffer's source has reported end of input
+  bol,     \* "at beginning of line" flag of the current buffer
+  \* ---- scanner state proper
   sc,      \* current start condition (0-based, as yystart() reports it)
   stk,     \* start-condition stack (bottom first)
-  bol,     \* "at beginning of line" flag
-  lineno,  \* yylineno
+  lineno,  \* yylineno (of the current buffer when reentrant)
   text,    \* yytext of the current token
   pfx,     \* text kept by yymore() for the next token
   more,    \* yymore() called in the current action
   cands,   \* REJECT alternatives not yet visited: Seq(<<rule, length>>)
   buf0, bol0, line0,  \* buf / bol / lineno when the current token's scan began
-  phase,   \* "scan" | "act" | "rej" | "done" | "fatal"
   eaten,   \* bytes consumed by yyinput() since the current action began
-  hist     \* history (hidden from the model checker's VIEW): what was consumed
+  phase,   \* "out" | "scan" | "act" | "rej" | "wrap" | "eofact" | "done" | "fatal"
+  wfrom,   \* phase in which yywrap() was entered
+  switched,\* a buffer switch happened inside yywrap()
+  hist     \* history (hidden from the model checker's VIEW)
 
-svars == <<rs, opt, inp, buf, eof, sc, stk, bol, lineno, text, pfx, more, cands, buf0, bol0, line0, phase, eaten, hist>>
+bvars == <<files, yyin, cur, bstack, saved, fid, fresh, buf, eof, bol>>
+cvars == <<sc, stk>>
+kvars == <<text, pfx, more, cands, buf0, bol0, line0, eaten>>
+svars == <<rs, opt, bvars, cvars, lineno, kvars, phase, wfrom, switched, hist>>
 
 R == RSets[rs]
 NRules == Len(R.rules)          \* including the default rule (= NRules)
 CountNL(w) == Cardinality({i \in 1..Len(w) : w[i] = NL})
 
 \* ------------------------------------------------------------------ matching
-\* item state reached after scanning w from the start state
-ScanOf(w) == Scan(R, Start(R, sc + 1, bol), w, 0, {})
-
 \* The match at the head of `buf` is decided when the scan of the buffered
 \* bytes dies (batch scanners must see the byte they jam on), or - in an
 \* interactive scanner - reaches a state that no byte can extend, or the
@@ -59,29 +69,56 @@ MatchDecided == eof \/ Decided(Start(R, sc + 1, bol), buf, 0)
 
 CandSeq(w, b) == SortSeq(SetToSeq(Scan(R, Start(R, sc + 1, b), w, 0, {})[1]), Better)
 
+\* ------------------------------------------------------------------ buffers
+LiveRec == [buf |-> buf, eof |-> eof, bol |-> bol, fid |-> fid, fresh |-> fresh, lineno |-> lineno]
+NewRec(f) == [buf |-> <<>>, eof |-> FALSE, bol |-> TRUE, fid |-> f, fresh |-> TRUE, lineno |-> 1]
+MemRec(bytes) == [buf |-> bytes, eof |-> TRUE, bol |-> TRUE, fid |-> 0, fresh |-> FALSE, lineno |-> 1]
+Load(rec) == /\ buf' = rec.buf /\ eof' = rec.eof /\ bol' = rec.bol /\ fid' = rec.fid /\ fresh' = rec.fresh
+             /\ lineno' = IF opt.reentrant THEN rec.lineno ELSE lineno
+Exists(b) == b # 0 /\ (b = cur \/ b \in DOMAIN saved)
+Without(f, b) == [x \in (DOMAIN f) \ {b} |-> f[x]]
+\* the saved records once the current buffer steps aside
+Parked == IF cur = 0 THEN saved ELSE (cur :> LiveRec) @@ saved
+
 \* ------------------------------------------------------------------ actions
 SInit ==
   /\ rs = 1 /\ opt = [interactive |-> TRUE, array |-> FALSE, lno |-> TRUE, bolneeded |-> TRUE,
-                      rejectmode |-> FALSE, bufsize |-> 0, strictread |-> TRUE]
-  /\ inp = <<>> /\ buf = <<>> /\ eof = FALSE /\ sc = 0 /\ stk = <<>> /\ bol = TRUE /\ lineno = 1
-  /\ text = <<>> /\ pfx = <<>> /\ more = FALSE /\ cands = <<>> /\ buf0 = <<>> /\ bol0 = TRUE /\ line0 = 1
-  /\ phase = "done" /\ eaten = 0 /\ hist = <<>>
+                      rejectmode |-> FALSE, bufsize |-> 0, strictread |-> TRUE, reentrant |-> FALSE,
+                      userwrap |-> FALSE]
+  /\ files = <<>> /\ yyin = 1 /\ cur = 1 /\ bstack = <<1>> /\ saved = <<>> /\ fid = 1 /\ fresh = TRUE
+  /\ buf = <<>> /\ eof = FALSE /\ bol = TRUE
+  /\ sc = 0 /\ stk = <<>> /\ lineno = 1
+  /\ text = <<>> /\ pfx = <<>> /\ more = FALSE /\ cands = <<>> /\ buf0 = <<>> /\ bol0 = TRUE /\ line0 = 1 /\ eaten = 0
+  /\ phase = "done" /\ wfrom = "scan" /\ switched = FALSE /\ hist = <<>>
 
-\* a fresh scanner over `input`
-Reset(k, input, o) ==
-  /\ rs' = k /\ opt' = o /\ inp' = input /\ buf' = <<>> /\ eof' = FALSE /\ sc' = 0 /\ stk' = <<>>
-  /\ bol' = TRUE /\ lineno' = 1 /\ text' = <<>> /\ pfx' = <<>> /\ more' = FALSE /\ cands' = <<>>
-  /\ buf0' = <<>> /\ bol0' = TRUE /\ line0' = 1 /\ phase' = "scan" /\ eaten' = 0 /\ hist' = <<>>
+\* a fresh scanner; fs = the input sources (fs[1] is what yyin designates first)
+Reset(k, fs, o) ==
+  /\ rs' = k /\ opt' = o
+  /\ files' = fs /\ yyin' = 1 /\ cur' = 1 /\ bstack' = <<1>> /\ saved' = <<>> /\ fid' = 1 /\ fresh' = TRUE
+  /\ buf' = <<>> /\ eof' = FALSE /\ bol' = TRUE
+  /\ sc' = 0 /\ stk' = <<>> /\ lineno' = 1
+  /\ text' = <<>> /\ pfx' = <<>> /\ more' = FALSE /\ cands' = <<>> /\ buf0' = <<>> /\ bol0' = TRUE /\ line0' = 1 /\ eaten' = 0
+  /\ phase' = "out" /\ wfrom' = "scan" /\ switched' = FALSE /\ hist' = <<>>
 
-\* the source delivers the next `got` bytes (0 = end of input).  While
-\* scanning this may happen only if the match is not yet decided (no
-\* over-read); inside an action (yyinput) only if nothing is buffered.
+\* the caller calls yylex()
+Call ==
+  /\ phase \in {"out", "done"} /\ phase' = "scan"
+  /\ UNCHANGED <<rs, opt, bvars, cvars, lineno, kvars, wfrom, switched, hist>>
+
+\* the current buffer's source delivers its next `got` bytes (0 = end of
+\* input).  While scanning this may happen only if the match is not yet
+\* decided (no over-read); inside an action (yyinput) only if nothing is
+\* buffered.  A "new" buffer reads from what yyin designates at that moment.
+ReadFile == IF fresh THEN yyin ELSE fid
 Read(got) ==
-  /\ ~eof /\ got <= Len(inp) /\ (got = 0 => inp = <<>>)
+  /\ cur # 0 /\ ~eof /\ ReadFile # 0 /\ ReadFile <= Len(files)
+  /\ got <= Len(files[ReadFile]) /\ (got = 0 => files[ReadFile] = <<>>)
   /\ \/ phase = "scan" /\ (opt.strictread => ~MatchDecided)
      \/ phase = "act" /\ (opt.strictread => buf = <<>>)
-  /\ inp' = SubSeq(inp, got + 1, Len(inp)) /\ buf' = buf \o SubSeq(inp, 1, got) /\ eof' = (got = 0)
-  /\ UNCHANGED <<rs, opt, sc, stk, bol, lineno, text, pfx, more, cands, buf0, bol0, line0, phase, eaten, hist>>
+  /\ files' = [files EXCEPT ![ReadFile] = SubSeq(@, got + 1, Len(@))]
+  /\ buf' = buf \o SubSeq(files[ReadFile], 1, got) /\ eof' = (got = 0)
+  /\ fid' = ReadFile /\ fresh' = FALSE
+  /\ UNCHANGED <<rs, opt, yyin, cur, bstack, saved, bol, cvars, lineno, kvars, phase, wfrom, switched, hist>>
 
 \* candidate c = <<rule, match length>> taken against the token-start text w
 Take(c, w, b0, l0, h) ==
@@ -97,7 +134,7 @@ EndEffects == /\ pfx' = (IF more THEN text ELSE <<>>) /\ more' = FALSE /\ cands'
 
 \* the best match is selected and its action entered
 Match(rule, h) ==
-  /\ phase = "scan" /\ MatchDecided /\ buf # <<>>
+  /\ phase = "scan" /\ cur # 0 /\ MatchDecided /\ buf # <<>>
   /\ LET cs == CandSeq(buf, bol) IN
      /\ cs # <<>> /\ cs[1][1] = rule
      /\ Take(cs[1], buf, bol, lineno, h)
@@ -106,12 +143,12 @@ Match(rule, h) ==
         THEN /\ phase' = "scan" /\ pfx' = <<>> /\ more' = FALSE /\ cands' = <<>>
         ELSE /\ phase' = "act" /\ cands' = Tail(cs) /\ UNCHANGED <<pfx, more>>
   /\ hist' = Append(hist, <<"tok", rule, text'>>) /\ eaten' = 0
-  /\ UNCHANGED <<rs, opt, inp, eof, sc, stk>>
+  /\ UNCHANGED <<rs, opt, files, yyin, cur, bstack, saved, fid, fresh, eof, cvars, wfrom, switched>>
 
 Reject ==
   /\ phase = "act" /\ cands # <<>>
   /\ phase' = "rej"
-  /\ UNCHANGED <<rs, opt, inp, buf, eof, sc, stk, bol, lineno, text, pfx, more, cands, buf0, bol0, line0, eaten, hist>>
+  /\ UNCHANGED <<rs, opt, bvars, cvars, lineno, kvars, wfrom, switched, hist>>
 
 \* the next-best alternative at the same position
 MatchAgain(rule, h) ==
@@ -121,11 +158,16 @@ MatchAgain(rule, h) ==
      THEN /\ phase' = "scan" /\ pfx' = <<>> /\ more' = FALSE /\ cands' = <<>>
      ELSE /\ phase' = "act" /\ cands' = Tail(cands) /\ UNCHANGED <<pfx, more>>
   /\ hist' = Append(hist, <<"tok", rule, text'>>)
-  /\ UNCHANGED <<rs, opt, inp, eof, sc, stk, buf0, bol0, line0, eaten>>
+  /\ UNCHANGED <<rs, opt, files, yyin, cur, bstack, saved, fid, fresh, eof, cvars, buf0, bol0, line0, eaten, wfrom, switched>>
 
 ActEnd ==
   /\ phase = "act" /\ phase' = "scan" /\ EndEffects
-  /\ UNCHANGED <<rs, opt, inp, buf, eof, sc, stk, bol, lineno, text, buf0, bol0, line0, eaten, hist>>
+  /\ UNCHANGED <<rs, opt, bvars, cvars, lineno, text, buf0, bol0, line0, eaten, wfrom, switched, hist>>
+
+\* the action returns to the caller of yylex
+Return ==
+  /\ phase = "act" /\ phase' = "out" /\ EndEffects
+  /\ UNCHANGED <<rs, opt, bvars, cvars, lineno, text, buf0, bol0, line0, eaten, wfrom, switched, hist>>
 
 \* yyless(n): keep the first n bytes of yytext, rescan the rest
 Less(n) ==
@@ -134,11 +176,11 @@ Less(n) ==
   /\ buf' = SubSeq(text, n + 1, Len(text)) \o buf
   /\ lineno' = IF opt.lno THEN lineno - CountNL(SubSeq(text, n + 1, Len(text))) ELSE lineno
   /\ hist' = Append(hist, <<"less", n>>)
-  /\ UNCHANGED <<rs, opt, inp, eof, sc, stk, bol, pfx, more, cands, buf0, bol0, line0, phase, eaten>>
+  /\ UNCHANGED <<rs, opt, files, yyin, cur, bstack, saved, fid, fresh, eof, bol, cvars, pfx, more, cands, buf0, bol0, line0, eaten, phase, wfrom, switched>>
 
 More ==
   /\ phase = "act" /\ more' = TRUE
-  /\ UNCHANGED <<rs, opt, inp, buf, eof, sc, stk, bol, lineno, text, pfx, cands, buf0, bol0, line0, phase, eaten, hist>>
+  /\ UNCHANGED <<rs, opt, bvars, cvars, lineno, text, pfx, cands, buf0, bol0, line0, eaten, phase, wfrom, switched, hist>>
 
 \* yyunput(c): c will be the next byte read
 Unput(c) ==
@@ -146,7 +188,7 @@ Unput(c) ==
   /\ buf' = <<c>> \o buf
   /\ lineno' = IF opt.lno /\ c = NL THEN lineno - 1 ELSE lineno
   /\ hist' = Append(hist, <<"unput", c>>)
-  /\ UNCHANGED <<rs, opt, inp, eof, sc, stk, bol, text, pfx, more, cands, buf0, bol0, line0, phase, eaten>>
+  /\ UNCHANGED <<rs, opt, files, yyin, cur, bstack, saved, fid, fresh, eof, bol, cvars, kvars, phase, wfrom, switched>>
 
 \* yyinput() returns the next byte ...
 Input(c) ==
@@ -155,57 +197,174 @@ Input(c) ==
   /\ lineno' = IF opt.lno /\ c = NL THEN lineno + 1 ELSE lineno
   /\ bol' = IF opt.bolneeded THEN c = NL ELSE bol
   /\ hist' = Append(hist, <<"input", c>>) /\ eaten' = eaten + 1
-  /\ UNCHANGED <<rs, opt, inp, eof, sc, stk, text, pfx, more, cands, buf0, bol0, line0, phase>>
-\* ... or its end-of-input value, only when no input remains at all
-\* (the exhausted source is restarted: it will be asked again, and what comes
-\* next begins a line)
+  /\ UNCHANGED <<rs, opt, files, yyin, cur, bstack, saved, fid, fresh, eof, cvars, text, pfx, more, cands, buf0, bol0, line0, phase, wfrom, switched>>
+
+\* A file-backed buffer that reaches end of input is restarted on yyin at
+\* once (before yywrap is consulted): it is "new" again, what comes next
+\* begins a line, and the source will be asked again.
+EofRestart ==
+  IF fid # 0 \/ fresh THEN /\ bol' = TRUE /\ eof' = FALSE /\ fresh' = TRUE /\ fid' = yyin
+  ELSE UNCHANGED <<bol, eof, fresh, fid>>
+AtEnd == cur # 0 /\ buf = <<>> /\ eof /\ (fid # 0 => files[fid] = <<>>)
+
+\* ... or its end-of-input value, only when no input remains at all (with a
+\* user yywrap only after yywrap said so: WrapRet1 returns to the action)
 InputEnd ==
-  /\ phase = "act" /\ buf = <<>> /\ inp = <<>> /\ eof
-  /\ eof' = FALSE /\ bol' = TRUE
-  /\ UNCHANGED <<rs, opt, inp, buf, sc, stk, lineno, text, pfx, more, cands, buf0, bol0, line0, phase, eaten, hist>>
+  /\ phase = "act"
+  /\ IF opt.userwrap THEN wfrom = "act" /\ UNCHANGED <<bol, eof, fresh, fid>>
+     ELSE AtEnd /\ EofRestart
+  /\ wfrom' = "scan"
+  /\ UNCHANGED <<rs, opt, files, yyin, cur, bstack, saved, buf, cvars, lineno, kvars, phase, switched, hist>>
 
 Begin(s) ==
-  /\ phase \in {"act", "scan", "done"} /\ sc' = s
-  /\ UNCHANGED <<rs, opt, inp, buf, eof, stk, bol, lineno, text, pfx, more, cands, buf0, bol0, line0, phase, eaten, hist>>
+  /\ sc' = s
+  /\ UNCHANGED <<rs, opt, bvars, stk, lineno, kvars, phase, wfrom, switched, hist>>
 Push(s) ==
-  /\ phase \in {"act", "scan", "done"} /\ stk' = Append(stk, sc) /\ sc' = s
-  /\ UNCHANGED <<rs, opt, inp, buf, eof, bol, lineno, text, pfx, more, cands, buf0, bol0, line0, phase, eaten, hist>>
+  /\ stk' = Append(stk, sc) /\ sc' = s
+  /\ UNCHANGED <<rs, opt, bvars, lineno, kvars, phase, wfrom, switched, hist>>
 Pop ==
-  /\ phase \in {"act", "scan", "done"} /\ stk # <<>> /\ sc' = Last(stk) /\ stk' = Front(stk)
-  /\ UNCHANGED <<rs, opt, inp, buf, eof, bol, lineno, text, pfx, more, cands, buf0, bol0, line0, phase, eaten, hist>>
+  /\ stk # <<>> /\ sc' = Last(stk) /\ stk' = Front(stk)
+  /\ UNCHANGED <<rs, opt, bvars, lineno, kvars, phase, wfrom, switched, hist>>
 \* popping the empty stack is a reported fatal error
 PopUnderflow ==
   /\ stk = <<>> /\ phase' = "fatal"
-  /\ UNCHANGED <<rs, opt, inp, buf, eof, sc, stk, bol, lineno, text, pfx, more, cands, buf0, bol0, line0, eaten, hist>>
+  /\ UNCHANGED <<rs, opt, bvars, cvars, lineno, kvars, wfrom, switched, hist>>
 TopIs(v) == v = (IF stk = <<>> THEN sc ELSE Last(stk))
 SetBol(v) ==
-  /\ bol' = v
-  /\ UNCHANGED <<rs, opt, inp, buf, eof, sc, stk, lineno, text, pfx, more, cands, buf0, bol0, line0, phase, eaten, hist>>
+  /\ cur # 0 /\ bol' = v
+  /\ UNCHANGED <<rs, opt, files, yyin, cur, bstack, saved, fid, fresh, buf, eof, cvars, lineno, kvars, phase, wfrom, switched, hist>>
 
-\* the action returns to the caller of yylex
-Return ==
-  /\ phase = "act" /\ phase' = "scan" /\ EndEffects
-  /\ UNCHANGED <<rs, opt, inp, buf, eof, sc, stk, bol, lineno, text, buf0, bol0, line0, eaten, hist>>
-
-\* end of input: nothing buffered, source exhausted; the <<EOF>> action of
-\* the current condition (k = 0: the default one) runs and yylex returns 0
+\* ------------------------------------------------------------------ end of input
+\* Nothing buffered and the source exhausted.  Without a user yywrap the
+\* <<EOF>> action of the current condition (k = 0: the default one, which
+\* makes yylex return 0) runs at once ...
 AtEof(k) ==
-  /\ phase = "scan" /\ buf = <<>> /\ inp = <<>> /\ eof
+  /\ phase = "scan" /\ AtEnd /\ ~opt.userwrap
   /\ k = EofRule(R, sc + 1)
+  /\ EofRestart
   /\ phase' = "done" /\ pfx' = <<>> /\ more' = FALSE /\ cands' = <<>>
-  /\ bol' = TRUE      \* the exhausted source is restarted: next input begins a line
-  /\ UNCHANGED <<rs, opt, inp, buf, eof, sc, stk, lineno, text, buf0, bol0, line0, eaten, hist>>
+  /\ UNCHANGED <<rs, opt, files, yyin, cur, bstack, saved, buf, cvars, lineno, text, buf0, bol0, line0, eaten, wfrom, switched, hist>>
 
-\* fatal errors the manual documents
+\* ... with one, yywrap() is consulted first (from the matching loop or from
+\* yyinput()), only when nothing at all is pending
+WrapEnter ==
+  /\ opt.userwrap /\ phase \in {"scan", "act"} /\ AtEnd
+  /\ EofRestart
+  /\ wfrom' = phase /\ phase' = "wrap" /\ switched' = FALSE
+  /\ UNCHANGED <<rs, opt, files, yyin, cur, bstack, saved, buf, cvars, lineno, kvars, hist>>
+\* yywrap() returned 1: end of input for good.  From the matching loop the
+\* <<EOF>> action k of the current condition runs next (EofAct); yyinput()
+\* returns its end-of-input value to the action (InputEnd).
+WrapRet1 ==
+  /\ phase = "wrap"
+  /\ phase' = IF wfrom = "scan" THEN "eofact" ELSE "act"
+  /\ UNCHANGED <<rs, opt, bvars, cvars, lineno, kvars, wfrom, switched, hist>>
+EofAct(k) ==
+  /\ phase = "eofact" /\ k = EofRule(R, sc + 1)
+  /\ phase' = "done" /\ pfx' = <<>> /\ more' = FALSE /\ cands' = <<>>
+  /\ UNCHANGED <<rs, opt, bvars, cvars, lineno, text, buf0, bol0, line0, eaten, wfrom, switched, hist>>
+\* yywrap() returned 0: more input.  If it did not switch buffers itself, the
+\* current buffer is restarted on whatever yyin designates now.
+WrapRet0 ==
+  /\ phase = "wrap" /\ phase' = wfrom /\ wfrom' = "scan"
+  /\ IF switched THEN UNCHANGED <<buf, eof, bol, fid, fresh>>
+     ELSE /\ buf' = <<>> /\ eof' = FALSE /\ bol' = TRUE /\ fid' = yyin /\ fresh' = TRUE
+  /\ UNCHANGED <<rs, opt, files, yyin, cur, bstack, saved, cvars, lineno, kvars, switched, hist>>
+
+\* ------------------------------------------------------------------ buffer API
+\* (callable between yylex() calls, from actions and from yywrap)
+BufPhase == phase \in {"out", "done", "act", "wrap"}
+
+SetYyin(f) ==
+  /\ yyin' = f
+  /\ UNCHANGED <<rs, opt, files, cur, bstack, saved, fid, fresh, buf, eof, bol, cvars, lineno, kvars, phase, wfrom, switched, hist>>
+
+\* yy_create_buffer(file f): a new, not yet current buffer
+NewBuf(b, f) ==
+  /\ BufPhase /\ ~Exists(b) /\ b # 0
+  /\ saved' = (b :> NewRec(f)) @@ saved
+  /\ UNCHANGED <<rs, opt, files, yyin, cur, bstack, fid, fresh, buf, eof, bol, cvars, lineno, kvars, phase, wfrom, switched, hist>>
+
+\* make b current in place of the current buffer, which keeps its state
+SwitchTo(b) ==
+  /\ BufPhase /\ Exists(b)
+  /\ IF b = cur THEN UNCHANGED <<cur, bstack, saved, fid, fresh, buf, eof, bol, lineno, yyin>>
+     ELSE /\ Load(saved[b]) /\ cur' = b
+          /\ saved' = Without(Parked, b)
+          /\ bstack' = IF bstack = <<>> THEN <<b>> ELSE Front(bstack) \o <<b>>
+          /\ yyin' = saved[b].fid
+  /\ switched' = (switched \/ b # cur)
+  /\ UNCHANGED <<rs, opt, files, cvars, kvars, phase, wfrom, hist>>
+
+\* yypush_buffer_state(b): b becomes current on top of the current buffer
+PushBuf(b) ==
+  /\ BufPhase /\ Exists(b) /\ b # cur
+  /\ Load(saved[b]) /\ cur' = b
+  /\ saved' = Without(Parked, b)
+  /\ bstack' = Append(bstack, b)
+  /\ yyin' = saved[b].fid
+  /\ switched' = TRUE
+  /\ UNCHANGED <<rs, opt, files, cvars, kvars, phase, wfrom, hist>>
+
+\* yypop_buffer_state(): the current buffer is deleted, the one pushed before
+\* it (if any) becomes current again, exactly as it was
+PopBuf ==
+  /\ BufPhase /\ cur # 0
+  /\ bstack' = Front(bstack)
+  /\ IF Len(bstack) > 1
+     THEN LET b == bstack[Len(bstack) - 1] IN
+          /\ Load(saved[b]) /\ cur' = b /\ saved' = Without(saved, b)
+          /\ yyin' = saved[b].fid
+          /\ switched' = TRUE
+     ELSE /\ cur' = 0 /\ buf' = <<>> /\ eof' = FALSE /\ fid' = 0 /\ fresh' = FALSE
+          /\ UNCHANGED <<saved, bol, lineno, yyin, switched>>
+  /\ UNCHANGED <<rs, opt, files, cvars, kvars, phase, wfrom, hist>>
+
+\* yy_scan_string / yy_scan_bytes / yy_scan_buffer: a buffer over exactly
+\* these bytes, made current
+ScanMem(b, bytes) ==
+  /\ BufPhase /\ ~Exists(b) /\ b # 0
+  /\ Load(MemRec(bytes)) /\ cur' = b
+  /\ saved' = Parked
+  /\ bstack' = IF bstack = <<>> THEN <<b>> ELSE Front(bstack) \o <<b>>
+  /\ switched' = TRUE /\ yyin' = 0       \* an in-memory buffer has no file: yyin designates none
+  /\ UNCHANGED <<rs, opt, files, cvars, kvars, phase, wfrom, hist>>
+
+\* yy_flush_buffer(b): only the already-buffered text is discarded
+Flush(b) ==
+  /\ BufPhase /\ Exists(b)
+  /\ IF b = cur
+     THEN /\ buf' = <<>> /\ bol' = TRUE /\ eof' = (fid = 0 /\ ~fresh) /\ fresh' = (fid # 0 \/ fresh)
+          /\ UNCHANGED saved
+     ELSE /\ LET r == saved[b] IN
+             saved' = [saved EXCEPT ![b] = [r EXCEPT !.buf = <<>>, !.bol = TRUE,
+                                                     !.eof = (r.fid = 0 /\ ~r.fresh), !.fresh = (r.fid # 0 \/ r.fresh)]]
+          /\ UNCHANGED <<buf, bol, eof, fresh>>
+  /\ UNCHANGED <<rs, opt, files, yyin, cur, bstack, fid, cvars, lineno, kvars, phase, wfrom, switched, hist>>
+
+\* yy_delete_buffer(b) of a buffer that is not current
+Delete(b) ==
+  /\ BufPhase /\ b # cur /\ b \in DOMAIN saved
+  /\ saved' = Without(saved, b)
+  /\ UNCHANGED <<rs, opt, files, yyin, cur, bstack, fid, fresh, buf, eof, bol, cvars, lineno, kvars, phase, wfrom, switched, hist>>
+
+\* yyrestart(f): the current buffer forgets what it had buffered and reads f
+\* from now on; the start condition is not touched
+Restart(f) ==
+  /\ BufPhase /\ cur # 0
+  /\ buf' = <<>> /\ eof' = FALSE /\ bol' = TRUE /\ fid' = f /\ fresh' = TRUE /\ yyin' = f
+  /\ UNCHANGED <<rs, opt, files, cur, bstack, saved, cvars, lineno, kvars, phase, wfrom, switched, hist>>
+
+\* ------------------------------------------------------------------ documented fatal errors
 InBufPfx == IF opt.array THEN 0 ELSE Len(pfx)
 FatalRejectOverflow ==   \* REJECT scanner whose token does not fit its non-growing buffer
   /\ opt.rejectmode /\ opt.bufsize > 0
   /\ \/ phase = "scan" /\ InBufPfx + Len(buf) + 1 >= opt.bufsize
      \/ phase = "act" /\ buf = <<>> /\ Len(text) + eaten + 1 >= opt.bufsize   \* refill asked by yyinput()
   /\ phase' = "fatal"
-  /\ UNCHANGED <<rs, opt, inp, buf, eof, sc, stk, bol, lineno, text, pfx, more, cands, buf0, bol0, line0, eaten, hist>>
+  /\ UNCHANGED <<rs, opt, bvars, cvars, lineno, kvars, wfrom, switched, hist>>
 FatalPushback ==         \* yyunput() beyond the push-back capacity (the buffer is full of pending text)
   /\ phase = "act" /\ opt.bufsize > 0 /\ Len(buf) + 3 >= opt.bufsize
   /\ phase' = "fatal"
-  /\ UNCHANGED <<rs, opt, inp, buf, eof, sc, stk, bol, lineno, text, pfx, more, cands, buf0, bol0, line0, eaten, hist>>
+  /\ UNCHANGED <<rs, opt, bvars, cvars, lineno, kvars, wfrom, switched, hist>>
 =============================================================================
